@@ -213,6 +213,7 @@ def check_refinement(subject, run, prop="C03"):
     events = list(run.events)
     pos = 0
     stats = {"max_fanout": 1, "unmet_conditions": 0, "met_conditions": 0, "adaptive_params_checked": 0}
+    evolved = {}  # (instruction index, id of the input state) -> outcome prefix; all branch states of one instruction are alive together, so ids are unique
     for idx, spec_i in enumerate(prog):
         modes = spec_i["modes"] if spec_i.get("modes") is not None else list(active)
         if any(m not in active for m in modes):
@@ -235,6 +236,9 @@ def check_refinement(subject, run, prop="C03"):
                 raise Violation(prop, "condition-dispatch", "wrong-step", "expected a step of instruction %d (%s) on branch %s, saw instruction %d (%s)" % (idx, spec_i["type"], prefix, ev["idx"], ev["type"]))
             if tuple(ev["modes"]) != want_modes:
                 raise Violation(prop, "mode-remap", spec_i["type"], "instruction %d on original modes %s reached the step with modes %s, expected %s (active %s)" % (idx, modes, ev["modes"], want_modes, active))
+            if (idx, ev["state_id"]) in evolved:
+                raise Violation(prop, "chain-rule", "state-shared-between-branches", "instruction %d (%s) was applied twice to the same state object: the branches with outcomes %s and %s share their post-measurement state" % (idx, spec_i["type"], evolved[(idx, ev["state_id"])], prefix))
+            evolved[(idx, ev["state_id"])] = prefix
             if sid != "init" and sid is not None and ev["state_id"] != sid:
                 raise Violation(prop, "condition-dispatch", "wrong-state", "instruction %d ran on a state that is not the one of branch %s" % (idx, prefix))
             if N is not None:
